@@ -9,6 +9,7 @@ import Qfx.Lemmas.CodecDictGroup
 import Qfx.Lemmas.CodecDictNested
 import Qfx.Lemmas.CodecDictWalk
 import Qfx.Lemmas.CodecDictExample
+import Qfx.Lemmas.CodecDictStack
 import Qfx.Lemmas.CodecGroupNested
 open Qfx Qfx.Spec
 
@@ -494,6 +495,64 @@ theorem C13_dict_depth2_read_back (d : Dicts) (mt : Bytes) (G : Tag) (C : List D
       simp; omega
     rw [this]; rfl
 
+/-- THE TRIP THROUGH THE DICTIONARY-GUIDED PARSER, NESTED GROUPS OF ANY DEPTH: `fs` the application dictionary's field list of the message
+    type; the wire `8, 9, 35, plain…, G=<n>, <members>, z0, plain…, 10` whose member fields (a) move the parser's tag stack as the fixed
+    `parseGroup` does at any depth (`SegOKN`: `WalkN` — stay / push a nested group / pop to the enclosing level that lists the tag / pop
+    and push — and `z0` listed by no level) and (b) are, for the READER's template `d0 :: tmplr`, `n` entries of well-formed member blocks
+    (`EntryOKB`, nested groups reading back with their nested templates, any depth).  After `ParseMessage` with the dictionary,
+    `GetGroup(template)` on the body's field for `G` returns exactly `n` entries, entry `i` listing the i-th entry's member tags in wire
+    order and mapping each (distinct) tag to a range starting with that member's fields; `z0` is found in the body with its value. -/
+theorem C13_dict_anydepth_read_back (d : Dicts) (mt : Bytes) (fs : List DNode) (ha : AppMsg d mt fs) (G : Tag)
+    (S : Tag → Prop) (d0 : Tag) (tmplr : List Item) (es : List (List Block))
+    (t8 t9 t35 z0 t10 : TagValue) (preA postB : List TagValue)
+    (hseg : SegOKN d mt fs ⟨preA, countTV G es.length, es.flatMap serBlocks, z0⟩)
+    (hS : ∀ t, t ∈ tmplTags (.elem d0 :: tmplr) → S t) (hSz : S z0.tag) (hzT : findItem (.elem d0 :: tmplr) z0.tag = none)
+    (hes : ∀ e ∈ es, EntryOKB S d0 tmplr e) (hn : es.length < 9223372036854775808)
+    (hw8 : IsWire t8) (hw9 : IsWire t9) (hw35 : IsWire t35) (hw10 : IsWire t10)
+    (h8 : t8.tag = 8) (h9 : t9.tag = 9) (h35 : t35.tag = 35) (h10 : t10.tag = 10) (hv : t35.value = mt)
+    (hpost : PlainFields d postB) (hzG : ∀ tv ∈ z0 :: postB, tv.tag ≠ G)
+    (hng10 : NoGroupTag d 10) (hh10 : isHeaderField d 10 = false)
+    (hbl : atoi t9.value = .ok ((fieldsLength (t8 :: t9 :: t35 :: ((preA ++ countTV G es.length :: (es.flatMap serBlocks ++ [z0])) ++ (postB ++ [t10]))) : Nat) : Int)) :
+    ∃ (m : Message) (f : Field) (gs : List GEntry),
+      parseMessage Fixes.cur d (wireOf (t8 :: t9 :: t35 :: ((preA ++ countTV G es.length :: (es.flatMap serBlocks ++ [z0])) ++ (postB ++ [t10])))) = .ok m ∧
+      alFind m.body.lookup G = some f ∧
+      getGroup (.elem d0 :: tmplr) (f.full m.fields) = .ok gs ∧ gs.length = es.length ∧
+      (∀ (i : Nat) (e : List Block), es[i]? = some e → ∃ g : GEntry, gs[i]? = some g ∧ g.tags = e.map (·.tag) ∧
+        ((e.map (·.tag)).Nodup → ∀ b ∈ e, ∃ tail, alFind g.lookup b.tag = some (b.tvs ++ tail))) ∧
+      ((∀ tv ∈ postB, tv.tag ≠ z0.tag) → m.body.getBytes m.fields z0.tag = .ok z0.value) := by
+  have hflat : [(⟨preA, countTV G es.length, es.flatMap serBlocks, z0⟩ : Seg)].flatMap Seg.flat =
+      preA ++ countTV G es.length :: (es.flatMap serBlocks ++ [z0]) := by simp [Seg.flat]
+  obtain ⟨m, hparse, hfields, _, hgrp, hzf⟩ := parse_dict_segsN (d := d) ha t8 t9 t35 t10 [⟨preA, countTV G es.length, es.flatMap serBlocks, z0⟩] postB
+    hw8 hw9 hw35 hw10 h8 h9 h35 h10 hv (fun s hs => by simp only [List.mem_singleton] at hs; subst hs; exact hseg) hpost hng10 hh10
+    (by rw [hflat]; exact hbl)
+  rw [hflat] at hparse hfields
+  have hfind := hgrp [] ⟨preA, countTV G es.length, es.flatMap serBlocks, z0⟩ [] rfl (by
+    intro tv htv
+    simp only [List.flatMap_nil, List.nil_append] at htv
+    exact hzG tv htv)
+  have hzfind := hzf [] ⟨preA, countTV G es.length, es.flatMap serBlocks, z0⟩ [] rfl
+  simp only [List.flatMap_nil, List.length_nil, Nat.add_zero, List.nil_append] at hfind hzfind
+  obtain ⟨gs, hget, hlen, hent⟩ := C13_read_nested S G d0 tmplr (z0 :: postB ++ [t10]) hS
+    (fun f r hfr => by simp only [List.cons_append, List.cons.injEq] at hfr; rw [← hfr.1]; exact hSz)
+    (fun f r hfr => by simp only [List.cons_append, List.cons.injEq] at hfr; rw [← hfr.1]; exact hzT) es hes hn
+  refine ⟨m, _, gs, hparse, hfind, ?_, hlen, hent, ?_⟩
+  · rw [hfields]
+    have hL : t8 :: t9 :: t35 :: ((preA ++ countTV G es.length :: (es.flatMap serBlocks ++ [z0])) ++ (postB ++ [t10])) =
+        (t8 :: t9 :: t35 :: preA) ++ countTV G es.length :: (es.flatMap serBlocks ++ (z0 :: postB ++ [t10])) := by simp
+    have e : 3 + preA.length = (t8 :: t9 :: t35 :: preA).length := by simp; omega
+    simp only [Field.full]
+    rw [hL, e, List.drop_left]
+    exact hget
+  · intro hpz
+    apply getBytes_view _ _ _ _ z0 (hzfind hpz)
+    rw [hfields]
+    have hL' : t8 :: t9 :: t35 :: ((preA ++ countTV G es.length :: (es.flatMap serBlocks ++ [z0])) ++ (postB ++ [t10])) =
+        (t8 :: t9 :: t35 :: (preA ++ countTV G es.length :: es.flatMap serBlocks)) ++ z0 :: (postB ++ [t10]) := by simp
+    rw [hL', List.getElem?_append_right (by simp; omega)]
+    have : 3 + preA.length + 1 + (es.flatMap serBlocks).length - (t8 :: t9 :: t35 :: (preA ++ countTV G es.length :: es.flatMap serBlocks)).length = 0 := by
+      simp; omega
+    rw [this]; rfl
+
 /-- a group as in `C13_read_nested` is itself a well-formed nested block of an enclosing group: it reads back (and is skipped)
     whenever what follows carries a tag of `S'` that is allowed inside (`S`) and is not one of its template tags -/
 theorem C13_nested_group_is_block (S S' : Tag → Prop) (G d : Tag) (tmplr : List Item)
@@ -627,6 +686,8 @@ def C13_roundtrip_dict_full : Prop :=
 
 /-! non-vacuity of `Walk2` and `SegOK`: Qfx/Lemmas/CodecDictExample.lean (NoPartyIDs with nested NoPartySubIDs, two entries) -/
 example := @exWalk2
+example := @exWalkN
+example := @exSegOKN
 
 /-! non-vacuity: a two-entry group with a follower, read back by the model -/
 example :
@@ -647,7 +708,7 @@ example :
    "same fields and values in the same order"                 C13_roundtrip_flat (Write then Read, templates without nesting, any setter calls),
                                                              C13_read_inverts_wire_flat (whole Read, templates without nesting);
                                                              C13_read_member, C13_read_delimiter (one step each, any template); nested: C13_roundtrip_nodict_full
-   with the dictionary, nested groups: parse + GetGroup(nested template)           C13_dict_depth2_read_back
+   with the dictionary, nested groups: parse + GetGroup(nested template)           C13_dict_anydepth_read_back (any depth), C13_dict_depth2_read_back
    with the dictionary, group containing nested groups (D6 scenario), whole parse   C13_dict_depth2_group_mid, C13_dict_depth2_group_last (any arrangement of
                                                              two levels), C13_dict_nested_group_mid
    "fields following the group are still found"              C13_read_stops_at_follower; with dictionary: C13_dict_depth2_group_mid, C13_dict_nested_group_mid, C13_fixed_behind_nested_group
